@@ -474,7 +474,8 @@ fn object(p: &mut Parser) -> CompletedMarker {
 			asserts.push(m.complete(p, MEMBER_ASSERT_STMT));
 		} else {
 			field_name(p);
-			if p.at(T![+]) {
+			let plus = p.at(T![+]);
+			if plus {
 				p.bump();
 			}
 			let params = if p.at(T!['(']) {
@@ -484,7 +485,8 @@ fn object(p: &mut Parser) -> CompletedMarker {
 				true
 			} else {
 				visibility(p);
-				if p.at(T![function]) {
+				// `f+: function(..) ..` has no method form, MemberFieldMethod has no place for `+`
+				if p.at(T![function]) && !plus {
 					p.bump_assert(T![function]);
 					params_desc(p);
 					expr(p);
